@@ -141,7 +141,7 @@ def rand_filter(rng, segs=()):
 
 # ---------------------------------------------------------------- adversarial raw streams (C03)
 def rand_raw(rng):
-    kind = rng.choice(['random', 'syncdense', 'truncated', 'nested', 'overlap', 'bitflip', 'lenedge', 'mixed'])
+    kind = rng.choice(['random', 'syncdense', 'truncated', 'nested', 'overlap', 'bitflip', 'lenedge', 'mixed', 'stale_ck', 'stale_ck'])
     if kind == 'random':
         s = bytes(rng.getrandbits(8) for _ in range(rng.randrange(0, 200)))
     elif kind == 'syncdense':
@@ -159,6 +159,8 @@ def rand_raw(rng):
         f = bytearray(frame(*rng.choice(CIDS), rand_payload(rng, rng.choice([0, 2, 8, 40]))) + frame(5, 1, b'\x06\x01'))
         f[rng.randrange(len(f))] ^= 1 << rng.randrange(8)
         s = bytes(f)
+    elif kind == 'stale_ck':
+        s = stale_checksum_stream(rng, *rng.choice(CIDS), rand_payload(rng, rng.choice([0, 2, 8])))
     elif kind == 'lenedge':
         ln = rng.choice([1000, 1001, 0xFFFF, 999, 1002])
         body = bytes(rng.getrandbits(8) for _ in range(min(ln, 1003)))
@@ -170,6 +172,30 @@ def rand_raw(rng):
         cut = rng.randrange(len(s) + 1)
         s = s[cut:] + s[:cut]
     return s, kind
+
+
+def stale_checksum_stream(rng, c, i, payload):
+    """An aborted frame start (over-length header, or a truncated frame) followed by a frame-shaped sequence whose
+    checksum bytes are the Fletcher sum CONTINUED from the aborted bytes - valid only for a parser that forgets to
+    reset its running checksum. Optionally followed by a genuinely valid frame."""
+    k = rng.choice(['overlen', 'overlen', 'truncated_hdr', 'truncated_data'])
+    if k == 'overlen':
+        ln = rng.choice([1001, 0xFFFF, 2000])
+        stale = bytes([rng.randrange(256), rng.randrange(256), ln & 255, ln >> 8])
+        pre = bytes([SYNC1, SYNC2]) + stale
+    elif k == 'truncated_hdr':
+        stale = bytes([rng.randrange(256), rng.randrange(256)])
+        pre = bytes([SYNC1, SYNC2]) + stale
+    else:
+        stale = bytes([5, 1, 4, 0, 9, 9])
+        pre = bytes([SYNC1, SYNC2]) + stale
+    n = len(payload)
+    body = bytes([c, i, n & 255, n >> 8]) + bytes(payload)
+    a, b = fletcher(stale + body)
+    out = pre + bytes([SYNC1, SYNC2]) + body + bytes([a, b])
+    if rng.random() < 0.5:
+        out += frame(c, i, payload)
+    return out
 
 
 def chunkings(rng, s, n_random=1):
